@@ -708,6 +708,77 @@ pub fn generate(rng: &mut Rng, tier: Tier, emit: &mut dyn FnMut(String)) {
             }
         }
     }
+    // the real Plan over a SCRIPTED policy: every pick (none included) x every fallback of <= 3 entries over a 2-node
+    // universe (unsharded node 0, 4-shard node 1; shard-less, in-range and equal/different explicit shards): exact copies
+    // of the pick, the same node on another shard, shard-less copies, duplicates inside the fallback, empty fallback
+    {
+        let ents = ["0:-", "0:0", "0:1", "1:-", "1:0", "1:3"];
+        let mut fbs: Vec<String> = vec!["-".to_owned()];
+        for a in ents {
+            fbs.push(a.to_owned());
+            for b in ents {
+                fbs.push(format!("{},{}", a, b));
+                for c in ents {
+                    fbs.push(format!("{},{},{}", a, b, c));
+                }
+            }
+        }
+        for pick in std::iter::once("none").chain(ents) {
+            for fb in &fbs {
+                emit(format!("lbscript 0,4 {} {}", pick, fb));
+            }
+        }
+        for _ in 0..(if quick { 500 } else { 6000 }) {
+            let n = 1 + rng.below(4) as usize;
+            let shards: Vec<u64> = (0..n).map(|_| *rng.pick(&[0u64, 0, 1, 2, 5])).collect();
+            let ent = |rng: &mut Rng| {
+                let k = rng.below(n as u64) as usize;
+                match rng.below(3) {
+                    0 => format!("{}:-", k),
+                    _ => format!("{}:{}", k, rng.below(shards[k].max(1) + 1)),
+                }
+            };
+            let pick = if rng.chance(1, 4) { "none".to_owned() } else { ent(rng) };
+            let len = rng.below(6);
+            let fb = if len == 0 { "-".to_owned() } else { (0..len).map(|_| ent(rng)).collect::<Vec<_>>().join(",") };
+            emit(format!("lbscript {} {} {}", shards.iter().map(|s| s.to_string()).collect::<Vec<_>>().join(","), pick, fb));
+        }
+    }
+    // pplan: a real Session with a scripted in-order policy pages through the mock cluster; the Lean driver runs
+    // `pagerPlan` on the (node, shard) targets of every page (real time: a few cases)
+    for i in 0..(if quick { 10 } else { 60 }) {
+        let n = 2 + rng.below(3) as usize;
+        let sh = *rng.pick(&[0u64, 0, 2, 3]);
+        let mut nodes: Vec<usize> = (0..n).collect();
+        rng.shuffle(&mut nodes);
+        let mut order: Vec<(usize, Option<u64>)> = nodes.iter().map(|k| (*k, if sh == 0 { None } else { Some(rng.below(sh)) })).collect();
+        if sh > 0 {
+            // the same node on another shard (a different target), possibly the coordinator's node
+            for _ in 0..rng.below(3) {
+                let k = rng.below(n as u64) as usize;
+                let s = rng.below(sh);
+                if !order.contains(&(k, Some(s))) {
+                    let at = rng.below(order.len() as u64 + 1) as usize;
+                    order.insert(at, (k, Some(s)));
+                }
+            }
+        }
+        if rng.chance(1, 3) {
+            let first = order[0];
+            order.push(first); // an exact copy of the picked entry: skipped by `Plan`
+        }
+        let ord: Vec<String> = order.iter().map(|(k, s)| format!("{}:{}", k, s.map(|x| x.to_string()).unwrap_or_else(|| "-".to_owned()))).collect();
+        emit(format!(
+            "pplan n={} sh={} idem=1 max={} iv=25 slow={} kind={} order={} seed={}",
+            n,
+            sh,
+            order.len(),
+            [1u64, 2, 1, 0][i % 4],
+            if i % 2 == 0 { "exec" } else { "query" },
+            ord.join(","),
+            rng.below(1 << 32)
+        ));
+    }
     let spec_pools = universe_by_class(false);
     let gate_pools = universe_by_class(true);
     // every value of the universe as the outcome of the first execution while a second one is pending
@@ -1392,11 +1463,137 @@ fn run_lbplan(w: &[&str], ctx: &mut Ctx) -> String {
     )
 }
 
+/// `n:s` / `n:-`
+fn parse_raw_entry(t: &str, n_nodes: usize) -> Option<(usize, Option<u32>)> {
+    let (n, s) = t.split_once(':')?;
+    let n = n.parse::<usize>().ok()?;
+    if n >= n_nodes {
+        return None;
+    }
+    Some((n, if s == "-" { None } else { Some(s.parse::<u32>().ok()?) }))
+}
+
+/// `lbscript <nr_shards per node, 0 = unsharded> <pick: none|n:s|n:-> <fallback: -|entry,entry,...>`: the real `Plan` over a
+/// scripted policy.
+fn run_lbscript(w: &[&str], ctx: &mut Ctx) -> String {
+    use crate::c13_lbscript::{NodeKey, ScriptedLb};
+    use scylla::policies::load_balancing::{Plan, RoutingInfo};
+    use scylla::verif_hooks::cluster::{NodeSpec, cluster_from_topology, set_sharders};
+    if w.len() != 4 {
+        return "bad-case".to_owned();
+    }
+    let Some(shards) = w[1].split(',').map(|x| x.parse::<u16>().ok()).collect::<Option<Vec<u16>>>() else {
+        return "bad-case".to_owned();
+    };
+    if shards.is_empty() || shards.len() > 8 {
+        return "bad-case".to_owned();
+    }
+    let n = shards.len();
+    let pick = match w[2] {
+        "none" => None,
+        t => match parse_raw_entry(t, n) {
+            Some(e) => Some(e),
+            None => return "bad-case".to_owned(),
+        },
+    };
+    let fb: Vec<(usize, Option<u32>)> = if w[3] == "-" {
+        vec![]
+    } else {
+        match w[3].split(',').map(|t| parse_raw_entry(t, n)).collect::<Option<Vec<_>>>() {
+            Some(v) => v,
+            None => return "bad-case".to_owned(),
+        }
+    };
+    let nodes: Vec<NodeSpec> = (0..n)
+        .map(|i| NodeSpec {
+            host_id: lb_host_id(i),
+            datacenter: Some("dc1".to_owned()),
+            rack: Some("r1".to_owned()),
+            tokens: vec![(i as i64 + 1) * 1000],
+            enabled: true,
+            connected: true,
+        })
+        .collect();
+    let cs = RT_LB.with(|rt| rt.block_on(cluster_from_topology(&nodes, &[])));
+    let sharders: std::collections::HashMap<uuid::Uuid, (u16, u8)> =
+        shards.iter().enumerate().filter(|(_, k)| **k > 0).map(|(i, k)| (lb_host_id(i), (*k, 12u8))).collect();
+    set_sharders(&cs, &sharders);
+    let key = |e: &(usize, Option<u32>)| (NodeKey::Host(lb_host_id(e.0)), e.1);
+    let policy = ScriptedLb { pick: pick.as_ref().map(key), fallback: fb.iter().map(key).collect() };
+    let ri = RoutingInfo::default();
+    let idx_of = |nd: &scylla::cluster::Node| (0..n).find(|i| lb_host_id(*i) == nd.host_id).unwrap_or(99);
+    let plan: Vec<(usize, u32)> = Plan::new(&policy, &ri, &cs).map(|(nd, s)| (idx_of(nd), s)).collect();
+    // ---- oracle (written from the property, not from plan.rs) ----
+    let is_sharded = |k: usize| shards[k] > 0;
+    let same = |a: &(usize, Option<u32>), b: &(usize, Option<u32>)| a.0 == b.0 && (!is_sharded(a.0) || a.1.is_none() || b.1.is_none() || a.1 == b.1);
+    // the hypothesis on the policy: its fallback names no two same targets, and none that is the same target as the picked
+    // one unless it is an exact copy (a policy may repeat the picked entry: `Plan` skips exact copies)
+    let head: Option<(usize, Option<u32>)> = pick.or_else(|| fb.first().copied());
+    // the fallback after the first choice, without the exact copies of it (a policy may repeat it: `Plan` skips them)
+    let rest: Vec<(usize, Option<u32>)> = (if pick.is_some() { &fb[..] } else if fb.is_empty() { &[][..] } else { &fb[1..] })
+        .iter()
+        .filter(|e| Some(**e) != head)
+        .copied()
+        .collect();
+    let mut distinct = true;
+    for a in 0..rest.len() {
+        for b in a + 1..rest.len() {
+            if same(&rest[a], &rest[b]) {
+                distinct = false;
+            }
+        }
+        if let Some(h) = &head {
+            if same(h, &rest[a]) {
+                distinct = false;
+            }
+        }
+    }
+    if distinct {
+        for a in 0..plan.len() {
+            for b in a + 1..plan.len() {
+                if plan[a].0 == plan[b].0 && (!is_sharded(plan[a].0) || plan[a].1 == plan[b].1) {
+                    ctx.fail(format!(
+                        "the policy names no target twice, but Plan yields the same target twice: {:?} and {:?} (plan {:?})",
+                        plan[a], plan[b], plan
+                    ));
+                }
+            }
+        }
+        // nothing is lost either: every target the policy names is in the plan
+        let named = head.iter().count() + rest.len();
+        if plan.len() != named {
+            ctx.fail(format!("the policy names {} different targets, Plan yields {} ({:?})", named, plan.len(), plan));
+        }
+    }
+    // whatever the policy: the plan starts with the picked entry and every explicit shard is kept
+    if let (Some(h), Some(first)) = (&head, plan.first()) {
+        if first.0 != h.0 || h.1.is_some_and(|s| s != first.1) {
+            ctx.fail(format!("Plan starts with {:?}, the policy's first choice is {:?}", first, h));
+        }
+    }
+    if head.is_some() != !plan.is_empty() {
+        ctx.fail(format!("policy first choice {:?} but plan {:?}", head, plan));
+    }
+    for (k, s) in &plan {
+        if *s >= (shards[*k] as u32).max(1) && !fb.iter().chain(pick.iter()).any(|e| e.0 == *k && e.1 == Some(*s)) {
+            ctx.fail(format!("Plan drew shard {} for node {} which has {} shards", s, k, shards[*k]));
+        }
+    }
+    format!(
+        "distinct={} plan={}",
+        distinct as u8,
+        if plan.is_empty() { "-".to_owned() } else { plan.iter().map(|(k, s)| format!("{}:{}", k, s)).collect::<Vec<_>>().join(",") }
+    )
+}
+
 pub fn run(case: &str, ctx: &mut Ctx) -> String {
     let w: Vec<&str> = case.split_whitespace().collect();
     match w.first().copied() {
         Some("class") => run_class(&w, ctx),
         Some("lbplan") => run_lbplan(&w, ctx),
+        Some("lbscript") => run_lbscript(&w, ctx),
+        // the pager's plan, end to end, with the targets of every page printed for the model (see e2e/spec.rs)
+        Some("pplan") => crate::e2e::spec::run_pplan(&w[1..], ctx),
         Some("spec") => run_spec(&w, None, ctx),
         // developer self-test of the oracle (never generated): `mut<k>` runs a local copy of the select loop with
         // seeded bug k instead of the driver's `execute`
